@@ -980,6 +980,7 @@ func main() {
 	}
 	misuse(run)
 	if only < 0 {
+		poolUserSection(run)
 		raceSubRun(run)
 	}
 	run.Notes["rounds"] = executed
